@@ -461,7 +461,14 @@ func forwardLoad(load *ssa.UnOp) ssa.Value {
 			}
 		}
 		if len(b.Preds) != 1 {
-			return nil
+			// join: continue at the immediate dominator when nothing in between may write the location
+			d := b.Idom()
+			if d == nil || writtenBetween(d, b, addr) {
+				return nil
+			}
+			b = d
+			i = len(b.Instrs) - 1
+			continue
 		}
 		b = b.Preds[0]
 		i = len(b.Instrs) - 1
@@ -744,4 +751,11 @@ func convsBack(v ssa.Value) ([]*ssa.Convert, ssa.Value) {
 		v = c.X
 	}
 	return cs, v
+}
+
+
+// valueOf returns the instruction as a value (nil if it is not one).
+func valueOf(in ssa.Instruction) ssa.Value {
+	v, _ := in.(ssa.Value)
+	return v
 }
